@@ -35,6 +35,14 @@ COMMON_ASSUME = [
     "the invariant is re-asserted after every step, which is what lets one step stand for histories of any length",
 ]
 
+CORE_ASSUME = COMMON_ASSUME + [
+    "crates/turmoil is built against the tokio MODEL in /verif/models/tokio (functional mpsc / oneshot / Notify / Mutex, "
+    "Instant = duration since an origin with a harness-controlled clock; runtime, LocalSet, spawn, sleep are unimplemented!() "
+    "and unreachable from every harness)",
+    "rand_distr::Exp is modelled as an arbitrary non-negative finite f64 derived from one rng word; the world rng is a "
+    "generator whose every word is kani::any()",
+]
+
 claim(
     "C06",
     "Bounded model checking (Kani/CBMC) of the real turmoil-net TCP step functions: for one connected socket in an arbitrary "
@@ -79,18 +87,22 @@ claim(
 claim(
     "C17",
     "Bounded model checking (Kani/CBMC) of turmoil-net's real bind/allocate/demultiplex code: Kernel::bind against a table with one "
-    "existing binding for a symbolic (address from a 7-address pool incl. non-local, wildcard, loopback, v4/v6; port; type) equals the "
+    "existing binding (address from a 7-address pool incl. non-local, wildcard, loopback, v4/v6; port; symbolic type) equals the "
     "reference accept/AddrInUse/AddrNotAvailable predicate, local_addr reports the binding and close frees it; port 0 yields the first "
     "free port cyclically from the cursor that is not bound at any local address of the protocol; PortAllocator::allocate for all "
-    "range positions/cursors/occupancies of a 4-port range.",
-    "The table has at most two sockets per harness (measured limit: three real-API operations on one kernel exceed 10 GB in CBMC). "
-    "UDP/TCP demultiplexing over several sockets and Fabric routing are NOT covered by this check (DESIGN.md §3 C17).",
+    "range positions/cursors/occupancies of a 4-port range; UDP delivery over two bound sockets picks the exact binding before the "
+    "wildcard, never a socket of another port, and drops when nothing matches; an inbound TCP segment goes to the connection with "
+    "the exact 4-tuple before the listener on the same port, a SYN for a 4-tuple without connection goes to the listener and a "
+    "non-SYN without connection is answered with RST.",
+    "The table has at most two sockets per harness; the bind matrix keeps exactly one dimension symbolic per instance (measured: two "
+    "symbolic dimensions exceed 20 GB). Fabric host routing is NOT covered by this check (DESIGN.md §3 C17).",
     ["kernel::Kernel::bind", "kernel::Kernel::close", "kernel::Kernel::local_addr", "kernel::Kernel::is_local",
      "kernel::socket::SocketTable::allocate_port", "kernel::socket::SocketTable::bindings_on_port",
-     "kernel::socket::SocketTable::insert_binding", "kernel::socket::SocketTable::remove", "kernel::socket::PortAllocator::allocate"],
-    "Bounds: one pre-existing binding (4 shapes), new bind over 7 addresses x 2 ports x 2 types symbolic; ephemeral range of 3-4 ports, "
-    "symbolic cursor and occupancy; unwind 6-18.",
-    "multi-socket demultiplexing (exact before wildcard, 4-tuple before listener), Fabric::deliver host routing, connected-UDP filter",
+     "kernel::socket::SocketTable::insert_binding", "kernel::socket::SocketTable::remove", "kernel::socket::PortAllocator::allocate",
+     "kernel::udp::deliver", "kernel::tcp::deliver", "kernel::tcp::find_listener"],
+    "Bounds: one pre-existing binding (4 shapes), new bind over 7 addresses x 2 ports x 2 types; ephemeral range of 3-4 ports, "
+    "symbolic cursor and occupancy; two sockets for demultiplexing with concrete bind shapes and symbolic source address; unwind 6-18.",
+    "Fabric::deliver host routing, connected-UDP peer filter, more than two sockets per table",
     COMMON_ASSUME,
 )
 
@@ -115,17 +127,22 @@ claim(
 
 claim(
     "C02",
-    "Bounded model checking (Kani/CBMC) of turmoil::net's real TCP reorder buffer with the REAL tokio mpsc sender: from a stream socket "
-    "with symbolic next-expected sequence (u64), symbolic queue occupancy and a parked set, one arriving segment is forwarded together "
-    "with the maximal contiguous run that fits into the free queue slots; the queue grows by exactly the forwarded count, nothing is "
-    "lost, duplicated or altered and parked segments stay parked. A derived progress obligation (a FIN must not be left parked at the "
-    "head of the reorder buffer when nothing else will arrive) is confirmed by an end-to-end witness before being reported.",
-    "Only the send half of tokio's channel compiles under Kani (Receiver::poll_recv/try_recv ICE), so poll_read/peek chunking and the "
-    "credit accounting in net/tcp/stream.rs are outside this check; queue contents are observed through Sender::capacity().",
-    ["host::StreamSocket::new", "host::StreamSocket::buffer", "tokio::sync::mpsc::{channel, Sender::try_send, Sender::try_reserve, Permit::send, Sender::capacity}"],
-    "Bounds: channel capacity 1-3, parked set a subset of {r+2, r+3}, arriving sequence r+1..r+3, r symbolic u64; unwind 6.",
-    "reader side (poll_read, poll_peek, split halves), flow-control credits, World/Topology delivery, holds and partitions (C03/C08)",
-    COMMON_ASSUME[:1] + ["tokio is the REAL crate (send half of mpsc)", COMMON_ASSUME[2], COMMON_ASSUME[3]],
+    "Bounded model checking (Kani/CBMC) of turmoil::net's real TCP reorder buffer and stream read half (tokio MODEL channel): (writer "
+    "to queue) from a stream socket with symbolic next-expected sequence (u64), symbolic queue occupancy and a parked set, one arriving "
+    "segment is forwarded together with the maximal contiguous run that fits into the free queue slots; the queue grows by exactly the "
+    "forwarded count, nothing is lost, duplicated or altered and parked segments stay parked; (queue to reader) for concrete schedules "
+    "of read / peek calls with buffer sizes 1-4 over a queue DATA(2) DATA(1) [FIN] with symbolic byte contents, every call hands out "
+    "exactly the next bytes of the stream unaltered, a peek consumes nothing, each data segment returns exactly one flow-control credit "
+    "(credits + queued data segments == capacity at every point) and end-of-file is reported only after every byte and the FIN. A "
+    "derived progress obligation (a FIN must not be left parked at the head of the reorder buffer when nothing else will arrive) is "
+    "confirmed by an end-to-end witness before being reported (F-C02-1, repaired).",
+    "The write half (poll_write_priv acquiring credits under World) and delivery through World/Topology are not executed.",
+    ["host::StreamSocket::new", "host::StreamSocket::buffer", "net::tcp::stream::ReadHalf::{poll_read_priv, poll_peek, put_slice}",
+     "net::tcp::stream::FlowControl::{new, try_acquire, release}"],
+    "Bounds: channel capacity 1-3, parked set a subset of {r+2, r+3}, arriving sequence r+1..r+3, r symbolic u64; reader: 3-4 calls "
+    "per schedule, 3 data bytes in two segments; unwind 6-8.",
+    "write half and World delivery, split halves dropped separately, holds and partitions (C03/C08)",
+    CORE_ASSUME,
 )
 
 claim(
@@ -142,13 +159,6 @@ claim(
     COMMON_ASSUME,
 )
 
-CORE_ASSUME = COMMON_ASSUME + [
-    "crates/turmoil is built against the tokio MODEL in /verif/models/tokio (functional mpsc / oneshot / Notify / Mutex, "
-    "Instant = duration since an origin with a harness-controlled clock; runtime, LocalSet, spawn, sleep are unimplemented!() "
-    "and unreachable from every harness)",
-    "rand_distr::Exp is modelled as an arbitrary non-negative finite f64 derived from one rng word; the world rng is a "
-    "generator whose every word is kani::any()",
-]
 
 claim(
     "C03",
@@ -267,18 +277,24 @@ claim(
 
 claim(
     "C13",
-    "Bounded model checking (Kani/CBMC) of close and reclamation on one connected turmoil-net socket: close with unread bytes sends a "
-    "RST (seq = snd_nxt, ack = rcv_nxt) and reclaims the socket at once; a clean close lingers with the FIN queued right behind the "
-    "buffered bytes, marks the handle gone and emits nothing itself; whenever an entry is reclaimed the socket, its binding and its "
-    "4-tuple index entry are all gone; lingering sockets are reaped by the end-of-egress sweep exactly when Closed / reset / timed "
-    "out and never while the handle is held; an inbound RST aborts the connection and every later read/write reports ConnectionReset.",
-    "NARROW CLAIM: the handshake side (accept_syn backlog, accept hands out each child once, listener teardown) needs two sockets "
-    "in one kernel, which exceeded the 8 GB cap; full close handshakes across two kernels are not executed. The leak of aborted "
-    "never-accepted children (DESIGN.md §4 #6) is therefore not decided by this check.",
-    ["kernel::Kernel::close", "kernel::tcp::on_close", "kernel::tcp::reap_closed", "kernel::tcp::abort_with",
-     "kernel::tcp::handle_on_connection (RST arm)", "kernel::socket::SocketTable::remove"],
-    "Bounds: one socket, buffers 0-2 bytes, states Established / CloseWait / FinWait1 / FinWait2 concrete per instance; unwind 4-6.",
-    "listener/child interplay, backlog, connect cancellation, 4-tuple reuse",
+    "Bounded model checking (Kani/CBMC) of turmoil-net's connection life-cycle on one kernel: (listener) a SYN creates exactly one "
+    "SynReceived child while the backlog has room and none beyond it; the handshake ACK moves exactly that child to the ready queue; "
+    "accept hands out each ready child once, in order, and never a child that is not Established; closing the listener resets and "
+    "reclaims every child not yet accepted and leaves accepted ones alone; a child aborted before it was accepted (RST, or handshake "
+    "retransmission exhausted) is reclaimed with its index entry and frees its backlog slot (derived obligation, defect F-C13-1, "
+    "repaired); (connection) close with unread bytes sends a RST (seq = snd_nxt, ack = rcv_nxt) and reclaims the socket at once; a "
+    "clean close lingers with the FIN queued right behind the buffered bytes, marks the handle gone and emits nothing itself; whenever "
+    "an entry is reclaimed the socket, its binding and its 4-tuple index entry are all gone; lingering sockets are reaped by the "
+    "end-of-egress sweep exactly when Closed / reset / timed out and never while the handle is held; an inbound RST aborts the "
+    "connection and every later read/write reports ConnectionReset; a segment for a 4-tuple without socket is answered with RST.",
+    "Full close handshakes across two kernels (FIN/ACK exchange in both orders, TIME_WAIT-less reuse of a 4-tuple) are covered only "
+    "step-wise on one endpoint; connect cancellation through the shim's futures is not executed.",
+    ["kernel::Kernel::close", "kernel::Kernel::accept", "kernel::tcp::on_close", "kernel::tcp::reap_closed", "kernel::tcp::abort_with",
+     "kernel::tcp::accept_syn", "kernel::tcp::push_to_listener", "kernel::tcp::count_children", "kernel::tcp::handle_on_connection", "kernel::tcp::deliver",
+     "kernel::tcp::check_retx (handshake exhaustion)", "kernel::socket::SocketTable::remove"],
+    "Bounds: one listener with 0-2 children (backlog 1-2) or one connected socket, buffers 0-2 bytes, states concrete per instance, "
+    "sequence numbers / flags / source addresses symbolic; unwind 4-8.",
+    "two-kernel close handshakes, shim futures (connect cancellation), more than two children",
     COMMON_ASSUME,
 )
 
